@@ -520,6 +520,37 @@ func genCase(r *h.Rand, big bool) []string {
 	return ops
 }
 
+// manySeriesCase: a group-by read over so many series that groupBySort's tag copy buffer
+// (tagsBuffer{sz: 4096} in group_resultset.go — a literal, not a named constant) is refilled
+// several times: every kept row holds 2 x len(tags) entries of it.
+func manySeriesCase(r *h.Rand, nrows int) []string {
+	regions := []string{"eu", "us", "ap", "sa", ""}
+	var ops []string
+	typ := h.Pick(r, []byte{'f', 'i'})
+	for i := 0; i < nrows; i++ {
+		var kvs []string
+		kvs = append(kvs, h.HexS("_field")+":"+h.HexS("v"))
+		kvs = append(kvs, h.HexS("host")+":"+h.HexS(fmt.Sprintf("h%04d", i)))
+		if reg := h.Pick(r, regions); reg != "" {
+			kvs = append(kvs, h.HexS("region")+":"+h.HexS(reg))
+		}
+		if r.Chance(0.5) {
+			kvs = append(kvs, h.HexS("zone")+":"+h.HexS(h.Pick(r, []string{"a", "b"})))
+		}
+		t := r.Range(0, 50)
+		shape, ts, vals := "1", []int64{t}, []string{genVal(r, typ)}
+		if r.Chance(0.1) { // a series without a point in range: dropped by seriesHasPoints
+			shape, ts, vals = "-", nil, nil
+		}
+		ops = append(ops, "row "+strings.Join(kvs, "+")+" - "+string(typ)+" "+shape+" "+h.Ints(ts)+" "+h.Join(vals))
+	}
+	ops = append(ops, "group by "+h.HexS("region")+" 0 0 -10 100")
+	ops = append(ops, "group by "+h.HexS("zone")+","+h.HexS("region")+" 1 0 -10 100")
+	ops = append(ops, "group by "+h.HexS("region")+" 0 1 -10 100")
+	ops = append(ops, "filter -10 100")
+	return ops
+}
+
 func gen(r *h.Rand, tier string, emit func([]string)) {
 	n, nbig := 400, 6
 	if tier == "thorough" {
@@ -530,6 +561,13 @@ func gen(r *h.Rand, tier string, emit func([]string)) {
 	}
 	for i := 0; i < nbig; i++ {
 		emit(genCase(r, true))
+	}
+	many := []int{900}
+	if tier == "thorough" {
+		many = []int{650, 700, 1000, 1500, 2200}
+	}
+	for _, n := range many {
+		emit(manySeriesCase(r, n))
 	}
 	emit([]string{"row - - f 1 1", "row zz - f 1 1 f0000000000000000", "filter 1", "group maybe - 0 0 0 1", "frob",
 		"row - lt:x61 f 1 1 f0000000000000000", "row - - i 1 1 f0000000000000000"})
